@@ -117,7 +117,22 @@ func c12Workload(c *Ctx, fam *report.Family, r *rng.R, nCfg, rounds int) error {
 	// sequentially – state that is initialised lazily on first use is then initialised under contention
 	yCold := isoDenseConfigYAML(tree, scripts)
 	runtime.GOMAXPROCS(16)
+	// … and next to them goroutines that only look packagers up – by format name, by the extension a target file name
+	// ends in (what the command's guess from the target does), by names that are not registered: the registry is read
+	// by every packaging
+	var lookups sync.WaitGroup
+	for g := 0; g < 4; g++ {
+		lookups.Add(1)
+		go func(g int) {
+			defer lookups.Done()
+			names := []string{"zst", "deb", "rpm", "pkg.tar.zst", "apk", "ipk", "archlinux", "nope", "tar.zst"}
+			for i := 0; i < 300; i++ {
+				_, _ = nfpm.Get(names[(i+g)%len(names)])
+			}
+		}(g)
+	}
 	coldRes := c12VariantB(yCold, 4, make([]time.Duration, 4), []int{0, 1, 2, 3})
+	lookups.Wait()
 	fam.Distribution["goroutine-launches"] += 4
 	fam.Count("cold-start")
 	if coldCfg, err := isoParse(yCold); err == nil {
@@ -145,6 +160,11 @@ func c12Workload(c *Ctx, fam *report.Family, r *rng.R, nCfg, rounds int) error {
 			// no override block but for deb: the other formats are handed the settings without a merge (maps and slices
 			// of the configuration itself if Get ever stops copying), while Get("deb") walks the configuration
 			y = isoPlainConfigYAML(tree, scripts) + "overrides:\n  deb:\n    depends: [only-deb]\n"
+		}
+		if k == 2 {
+			// no maintainer: deb and ipk fall back to a default and say so on the process-wide notice writer, from every
+			// goroutine that packages one of them
+			y = strings.Replace(isoPlainConfigYAML(tree, scripts), "maintainer: \"Verif <verif@example.com>\"\n", "", 1)
 		}
 		isoCountFeatures(fam, y)
 		key := isoKey(y)
